@@ -133,3 +133,8 @@ mod test {
         assert_parse!(Http, "OPTIONS", "http://[0:0:0:0:0:0:0:1]:8080", "[0:0:0:0:0:0:0:1]:8080");
     }
 }
+
+#[cfg(feature = "verif")]
+pub fn verif_recognize_http(method: &str, path: &str) -> Result<Proxy, anyhow::Error> {
+    recognize_http(method, path)
+}
